@@ -177,6 +177,9 @@ def population(draw, scheme, nmax, pmax, pmin=2, tmax=3, nmin=2):
         "taxa_named": draw(st.booleans()), "grouped_taxa": draw(st.booleans()), "trait_named": draw(st.booleans()),
         # the genetic map need not run in the direction of the stored (physical) marker order: a linkage group oriented
         # against the assembly, or a local inversion.  Only the pairwise distances |g_i - g_j| enter the property.
+        # unit of measurement of the trait: all marker effects times a power of two (exact), so that variances of order
+        # 1e-12 .. 1e-24 (and 1e+18) occur; every tolerance of the oracle is relative
+        "u_unit_exp": draw(st.sampled_from([0, 0, 0, 0, -17, -20, -40, 30])),
         "genpos_order": draw(st.sampled_from(["ascending", "ascending", "descending", "shuffled", "shuffled"])),
         "genpos_seed": draw(st.integers(0, 2 ** 16)),
     }
@@ -393,7 +396,7 @@ def build(case, perm=None):
     pg = DensePhasedGenotypeMatrix(mat=geno.copy(), taxa=taxa, taxa_grp=taxa_grp, vrnt_chrgrp=chrgrp.copy(),
                                    vrnt_phypos=phypos, vrnt_genpos=genpos.copy())
     pg.group_vrnt()
-    u = numpy.array(case["u"], dtype="float64").reshape(p, -1)
+    u = numpy.array(case["u"], dtype="float64").reshape(p, -1) * (2.0 ** int(case.get("u_unit_exp", 0)))
     t = u.shape[1]
     trait = numpy.array(["trait%d" % k for k in range(t)], dtype=object) if case["trait_named"] else None
     alg = DenseAdditiveLinearGenomicModel(beta=numpy.array([case["beta"]], dtype="float64"), u_misc=None, u_a=u.copy(),
@@ -478,6 +481,7 @@ def _labels_common(ctx, case, b):
     ctx.label("identical_distinct_taxa", any(numpy.array_equal(b.geno[:, i], b.geno[:, j]) for i in range(b.n) for j in range(i)))
     ctx.label("ntrait>1", b.t > 1)
     nonmono = any(b.genpos[i] > b.genpos[i + 1] and b.chrgrp[i] == b.chrgrp[i + 1] for i in range(b.p - 1))
+    ctx.label("effects_in_small_units", int(case.get("u_unit_exp", 0)) <= -17)
     ctx.label("genetic_map_not_monotone_in_stored_order", nonmono)
     ctx.label("non_monotone_map_across_chunk_boundary", nonmono and mem is not None and mem < maxrun)
 
